@@ -231,6 +231,20 @@ def _branch_on_option(ex, st, opt, on_some, on_none):
     return merge(is_some, rs, rn)
 
 
+def _opt_map_or_else(ex, st, args, dest_ty, func, where):
+    opt, dflt, f = args[0], args[1], args[2]
+    while isinstance(opt, VRef):
+        opt = ex.deref(st, opt)
+    return _branch_on_option(ex, st, opt,
+                             lambda s, p: _call_fn_value(ex, s, f, [p], where),
+                             lambda s: _call_fn_value(ex, s, dflt, [], where))
+
+
+def _opt_unwrap_or_else(ex, st, args, dest_ty, func, where):
+    opt, f = args
+    return _branch_on_option(ex, st, opt, lambda s, p: p, lambda s: _call_fn_value(ex, s, f, [], where))
+
+
 def _opt_map_or(ex, st, args, dest_ty, func, where):
     opt, default, clos = args
     return _branch_on_option(ex, st, opt,
@@ -277,11 +291,17 @@ def _try_branch(ex, st, args, dest_ty, func, where):
         if 1 in r.pay:
             pay[1] = [VEnum("Result", I(1), {1: r.pay[1]})]
         return VEnum("ControlFlow", r.discr, pay)
+    if "Option<" in func:
+        # Some(v) -> Continue(v); None -> Break(None)
+        pay = {0: list(r.pay.get(1, [VOpaque("no value")])), 1: [VEnum("Option", I(0), {0: []})]}
+        return VEnum("ControlFlow", simp(z3.If(r.discr == 1, I(0), I(1))), pay)
     raise Unsupported("Try::branch on " + func)
 
 
 def _from_residual(ex, st, args, dest_ty, func, where):
     r = args[0]
+    if re.match(r"^<(std::option::)?Option<", func):
+        return VEnum("Option", I(0), {0: []})
     return VEnum("Result", I(1), {1: [VOpaque("converted error")]})
 
 
@@ -451,6 +471,8 @@ def install_core(ex):
     A(r"^core::str::<impl str>::chars$", _chars, "str::chars (string = sequence of one-byte chars)")
     A(r"^<(std::str::)?Chars<'_> as Iterator>::collect::<Vec<char>>$", _collect_chars, "Chars::collect::<Vec<char>>")
     A(r"^(std::option::)?Option::<.*>::map_or::<", _opt_map_or, "Option::map_or")
+    A(r"^(std::option::)?Option::<.*>::map_or_else::<", _opt_map_or_else, "Option::map_or_else")
+    A(r"^(std::option::)?Option::<.*>::unwrap_or_else::<", _opt_unwrap_or_else, "Option::unwrap_or_else")
     A(r"^(std::option::)?Option::<.*>::and_then::<", _opt_and_then_core, "Option::and_then")
     A(r"^(std::option::)?Option::<.*>::or_else::<", _opt_or_else, "Option::or_else")
     A(r"^(std::option::)?Option::<.*>::or$", _opt_or, "Option::or")
@@ -464,6 +486,7 @@ def install_core(ex):
     A(r"^(std::option::)?Option::<.*>::is_some$", _opt_is_some, "Option::is_some")
     A(r"^(std::option::)?Option::<.*>::is_none$", _opt_is_none, "Option::is_none")
     A(r"^<(std::result::)?Result<.*> as (std::ops::)?Try>::branch$", _try_branch, "<Result as Try>::branch")
+    A(r"^<(std::option::)?Option<.*> as (std::ops::)?Try>::branch$", _try_branch, "<Option as Try>::branch")
     A(r" as (std::ops::)?FromResidual<.*>>::from_residual$", _from_residual, "FromResidual::from_residual (error value opaque)")
     A(r"^(std::fmt::|core::fmt::)?Arguments::<'_>::(from_str|new_const|new_v1|new)", _opaque, "fmt::Arguments constructors (opaque)")
     A(r"^core::array::equality::<impl PartialEq.*>::(eq|ne)$|^<\[u8; \d+\] as PartialEq>::(eq|ne)$", _array_eq, "[T; N] == [T; N]")
